@@ -66,7 +66,7 @@ DO = lambda what, **kw: dict({"do": what}, **kw)   # noqa: E731
 
 def scenario(i, script, opts=None, inp=None, **kw):
     s = {"id": i, "opts": opts or {}, "input": inp or {"kind": "none"}, "view": kw.pop("view", {}), "script": script,
-         "watchdog_ms": kw.pop("watchdog_ms", 1500)}
+         "watchdog_ms": kw.pop("watchdog_ms", 3000)}
     s.update(kw)
     return s
 
@@ -147,6 +147,7 @@ def machinery_problem(r):
 # ------------------------------------------------------------------ the cause x point x pending-work matrix (C04, C05, C13)
 
 POINTS = ["idle", "update", "view", "filter", "filterdrop", "batch", "cmdsend", "init", "exec"]
+EXTRA_POINTS = ["before-run"]
 CAUSES = ["quit", "quitapi", "interrupt", "kill", "cancel", "readerr", "panic", "cmdpanic"]
 PENDING = ["none", "senders", "forever", "input", "all"]
 
@@ -168,6 +169,24 @@ def lifecycle_scenario(i, cause, point, pending, opts=None, after_api=False, bef
     script = []
     label = None
     causes = [cause]
+    if point == "before-run":
+        # the supplied context is already cancelled when Run is called
+        if cause != "cancel":
+            return None
+        script = []
+        if waits_before_run:
+            script.append(DO("api", kind="wait", n=waits_before_run))
+        if before_api:
+            script += [DO("api", kind="wait", n=2), DO("api", kind="send", n=2), DO("api", kind="println", n=1)]
+        script += [DO("cancel"), DO("sleep", us=2000), DO("run"), W("returned")]
+        if after_api or before_api:
+            for k, n in (("wait", 2), ("send", 2), ("println", 1), ("printf", 1), ("quit", 1)):
+                script.append(DO("api", kind=k, n=n))
+            script.append(W("api"))
+        s = scenario(i, script, opts=o, inp=inp, view={}, ctx=True)
+        s["parallel_ok"] = True
+        return s, {"cause": cause, "point": point, "pending": "none", "causes": causes, "before_api": before_api, "after_api": after_api,
+                   "opts": {k: v for k, v in o.items() if k != "filter"}, "modes_history": [], "waits_before_run": waits_before_run}
     if waits_before_run:
         script += [DO("api", kind="wait", n=waits_before_run), DO("run")]
     script.append(W("started"))
